@@ -82,22 +82,24 @@ def deliberate():
 
 def run(ck):
     thorough = ck.tier == "thorough"
+    binp = ck.gobuild("sharda")
+    world = su.detect_world(ck, binp)
     if not ck.replay and not os.environ.get("VERIF_SKIP_MODEL"):     # (dev aid for mutation runs: the model check does not depend on the tree)
-        ck.tlc_model("Shard", "Shard_C09.cfg", timeout=1200)
+        ck.tlc_model("Shard", "Shard_C09.cfg", timeout=1200, files=su.cfg_files(world, "Shard_C09.cfg"))
         ck.setcov("exhaustive", True)
         ck.setcov("constants", "Objs={1 REG, 3 TS->1 exp 2} wc in {off,on} batch=2 epochs 0..3; ops Put GC Flush Epoch MarkDef Resync + crash at every micro-step")
         if thorough:
-            ck.tlc_model("Shard", "Shard_C09t.cfg", timeout=2400)
-            ck.tlc_model("Shard", "Shard_C09fixed.cfg", timeout=1200)
-            ck.tlc_model("Shard", "Shard_C09race.cfg", timeout=2400)     # + flush-versus-delete schedules
+            ck.tlc_model("Shard", "Shard_C09t.cfg", timeout=2400, files=su.cfg_files(world, "Shard_C09t.cfg"))
+            ck.tlc_model("Shard", "Shard_C09fixed.cfg", timeout=1200, files=su.cfg_files(world, "Shard_C09fixed.cfg"))
+            ck.tlc_model("Shard", "Shard_C09race.cfg", timeout=2400, files=su.cfg_files(world, "Shard_C09race.cfg"))     # + flush-versus-delete schedules
             ck.setcov("repaired_model_strict_property", True)
-    binp = ck.gobuild("sharda")
     if ck.replay:
         scripts = [json.load(open(ck.replay))["replay"]["script"]]
         ncex = 0
     else:
         # shortest counterexample of the strict property on the as-is model (model-only: not a verdict)
-        r = ck.tlc("ShardGen", "ShardGen_C09cext.cfg" if thorough else "ShardGen_C09cex.cfg", timeout=900, deadlock=False, count=False)
+        cexcfg = "ShardGen_C09cext.cfg" if thorough else "ShardGen_C09cex.cfg"
+        r = ck.tlc("ShardGen", cexcfg, timeout=900, deadlock=False, count=False, files=su.cfg_files(world, cexcfg))
         cex = []
         for ln in r.out.splitlines():
             if ln.startswith('<<"BEH", '):
@@ -107,18 +109,18 @@ def run(ck):
         ck.log("model counterexample of the strict property: %s" % (json.dumps(cex[0]["steps"]) if cex else "none (%s)" % r.kind))
         scripts = cex + deliberate()
         for s in range(3 if thorough else 1):
-            scripts += ck.tlc_scripts("ShardGen", "ShardGen_C09.cfg", num=1200 if thorough else 80, depth=12,
+            scripts += ck.tlc_scripts("ShardGen", "ShardGen_C09.cfg", files=su.cfg_files(world, "ShardGen_C09.cfg"), num=1200 if thorough else 80, depth=12,
                                       seed=ck.seed * 10 + s, timeout=900)
     tp, info = su.run_scripts(ck, binp, scripts)
     ck.log("harness: %s" % info)
     if info.get("scripts", 0) - info.get("skipped", 0) < max(1, len(scripts) // 2):
         raise vkit.Infra("too many behaviours discarded: %s" % info)
-    v = su.validate(ck, "TraceShard_C09.cfg", tp)
+    v = su.validate(ck, "TraceShard_C09.cfg", tp, world=world)
     if not v.r.ok and v.stuck and v.events[v.stuck[0] - 1]["ev"] == "Crash" and v.stuck[1] and \
             all(m[0] == "blob" and m[2] == "TRUE" and m[3] == "FALSE" for m in v.stuck[1]):
         # the tree does not leave the orphan blob any more (H9 repaired): judge with the repaired model
         ck.log("as-is model rejected at a crash without orphan blob: validating against the repaired model")
-        v = su.validate(ck, "TraceShard_C09fixed.cfg", tp)
+        v = su.validate(ck, "TraceShard_C09fixed.cfg", tp, world=world)
     su.judge(ck, "C09", v, scripts, "C09",
              lambda cause: SIG.get(cause, "unlisted-cause:" + cause),
              lambda cause: "removed object readable again after metabase resync (orphan blob cause: %s)" % cause)
